@@ -35,7 +35,7 @@ def simp_preserves_meaning(e, result):
             VIOLATIONS.append(('ambient/expr_simp/width', 'expr_simp(%s) = %s: width %d -> %d' % (e, result, we, wr), exprgen.canon(e)))
             return True
         for i in range(3):
-            env = irsem.Env(seed=('ambient', i))
+            env = irsem.Env(seed=('ambient', i), segmented=True)
             try:
                 a = irsem.evaluate(e, env)
                 b = irsem.evaluate(result, env)
